@@ -141,14 +141,22 @@ C12Exprs(r) ==
   \cup {Out(r, Enum(r, <<Unit(1, k, 1, "dec")>>), "single variant, discriminant is not a plain literal: " \o k,
             CtlOfKind(r, k)) : k \in OutKinds}
 C12Values(r) ==
-  IF Lims[r].tmax > Lims[r].i64max
-  THEN {Out(r, Enum(r, <<Unit(1, "lit", 0, "dec"), Unit(2, "lit", Lims[r].i64max + 1, "dec")>>), "literal above i64::MAX", "ok"),
-        Out(r, Enum(r, <<Unit(1, "lit", Lims[r].i64max, "dec"), Unit(2, "implicit", 0, "dec")>>), "implicit discriminant after i64::MAX", "ok"),
-        Out(r, Enum(r, <<Unit(1, "lit", Lims[r].tmax, "hex")>>), "literal at the repr type's maximum", "ok")}
-  ELSE {}
-  \cup (IF Lims[r].tmin < Lims[r].i64min
-        THEN {Out(r, Enum(r, <<Unit(1, "lit", Lims[r].i64min - 1, "dec"), Unit(2, "lit", 0, "dec")>>), "literal below i64::MIN", "ok")}
-        ELSE {})
+  (IF Lims[r].tmax > Lims[r].i64max
+   THEN {Out(r, Enum(r, <<Unit(1, "lit", 0, "dec"), Unit(2, "lit", Lims[r].i64max + 1, "dec")>>), "literal above i64::MAX", "ok"),
+         Out(r, Enum(r, <<Unit(1, "lit", 0, "dec"), Unit(2, "lit", Lims[r].i64max + 7, "hex")>>), "literal above i64::MAX", "ok"),
+         Out(r, Enum(r, <<Unit(1, "lit", Lims[r].i64max, "dec"), Unit(2, "implicit", 0, "dec")>>), "implicit discriminant after i64::MAX", "ok"),
+         Out(r, Enum(r, <<Unit(1, "lit", Lims[r].i64max - 1, "dec"), Unit(2, "implicit", 0, "dec"), Unit(3, "implicit", 0, "dec")>>), "implicit discriminant after i64::MAX", "ok"),
+         Out(r, Enum(r, <<Unit(1, "lit", Lims[r].tmax, "hex")>>), "literal at the repr type's maximum", "ok"),
+         Out(r, Enum(r, <<Unit(1, "lit", 1, "dec"), Unit(2, "lit", Lims[r].tmax - 1, "dec")>>), "literal near the repr type's maximum", "ok")}
+   ELSE {})
+  \cup
+  (IF Lims[r].tmin < Lims[r].i64min
+   THEN {Out(r, Enum(r, <<Unit(1, "lit", Lims[r].i64min - 1, "dec"), Unit(2, "lit", 0, "dec")>>), "literal below i64::MIN", "ok"),
+         Out(r, Enum(r, <<Unit(1, "lit", Lims[r].i64min - 16, "hex")>>), "literal below i64::MIN", "ok"),
+         Out(r, Enum(r, <<Unit(1, "lit", Lims[r].i64min - 2, "dec"), Unit(2, "implicit", 0, "dec"), Unit(3, "lit", 5, "dec")>>), "literal below i64::MIN", "ok"),
+         Out(r, Enum(r, <<Unit(1, "lit", Lims[r].tmin, "dec"), Unit(2, "lit", 0, "dec")>>), "literal at the repr type's minimum", "ok"),
+         Out(r, Enum(r, <<Unit(1, "lit", Lims[r].tmin + 1, "dec")>>), "literal near the repr type's minimum", "ok")}
+   ELSE {})
 C12Reprs(r) ==
   {Out(r, [item |-> "enum", reprs |-> rp, variants |-> <<Unit(1, "implicit", 0, "dec"), Unit(2, "implicit", 0, "dec")>>, count |-> 0, lim |-> Lim(r)],
        "unsupported repr form", "any") :
@@ -163,13 +171,13 @@ SortedCfg(req) == [attrs |-> <<<<E("sorted", IF req = <<>> THEN "path" ELSE "lis
                    varattr |-> NoVarAttr]
 SortedReqs == {<<"name">>, <<"value">>, <<"name", "value">>, <<"value", "name">>, <<>>}
 Perms(n) == {p \in [1..n -> 1..n] : \A i, j \in 1..n : i # j => p[i] # p[j]}
+C14Vals(r) == IF Lims[r].tmin < 0 THEN {<<1, 2, 3, 5>>, <<-7, -2, 0, 4>>, <<-3, -2, -1, 0>>} ELSE {<<1, 2, 3, 5>>, <<0, 1, 2, 9>>}
 C14Decls(r) ==
-  LET vals == <<1, 2, 3, 5>> IN
   \* n variants with the values vals[1..n] declared in the order p; names chosen by the rotation (k, j)
   UNION {{Enum(r, [i \in 1..n |-> Var(i, "unit",
                      IF expl \/ (i > 1 /\ vals[p[i]] # vals[p[IF i > 1 THEN i - 1 ELSE 1]] + 1) \/ (i = 1 /\ vals[p[1]] # 0) THEN "lit" ELSE "implicit",
                      vals[p[i]], "dec", NamePool[((p[i] * k + i * j) % 10) + 1])]) :
-            p \in Perms(n), k \in 1..3, j \in 0..1, expl \in BOOLEAN} : n \in 1..4}
+            p \in Perms(n), k \in 1..3, j \in 0..1, expl \in BOOLEAN, vals \in C14Vals(r)} : n \in 1..4}
 C14All(r) ==
   {Case("C14", d, SortedCfg(q), "sorted") : d \in C14Decls(r), q \in SortedReqs}
   \cup {Case("C14", d, AllAuto({"as_str"}), "no sorted: any order") : d \in {x \in C14Decls(r) : Len(x.variants) = 3}}
